@@ -1,6 +1,7 @@
 import PMV.Driver.Util
 import PMV.AstSexp
 import PMV.Spec.PyCore
+import PMV.Model.Scope
 namespace PMV.Driver.PyCore
 open PMV PMV.Driver PMV.PyCore
 
@@ -25,6 +26,20 @@ def runWith (optimized : Bool) (args : List Sexp) : Option String := do
       o.globals.map (fun (n, v) => "GLOBAL " ++ n ++ " " ++ showVal v) ++
       o.imports.map (fun l => "IMPORT " ++ hexOf l)
     pure (encStr ("\n".intercalate lines))
+  | _ => none
+
+/-- `pycore.scopestable <asserts|debug> <module>` → `true` / `false`: the hypothesis of T01.10 for this module (`outside`: some function body is outside the core) -/
+def scopeStableCmd (args : List Sexp) : Option String := do
+  match args with
+  | [k, m] =>
+    let k ← str? k
+    let m ← AstSexp.module? m
+    let t ← (match k with
+      | "asserts" => some Transforms.removeAsserts
+      | "debug" => some Transforms.removeDebug
+      | _ => none)
+    let outside := (collect m.body).any fun e => (bindTop e.2.2).isNone      -- a body the core cannot read: calling it is stuck anyway
+    pure (if outside then "outside" else if scopeStable t m then "true" else "false")
   | _ => none
 
 def runCmd (args : List Sexp) : Option String := runWith false args
